@@ -162,19 +162,16 @@ func matchCompTimeRange(start, end time.Time, comp *ical.Component) (bool, error
 		return false, err
 	}
 
-	// Event starts in time range
-	if eventStart.After(start) && (end.IsZero() || eventStart.Before(end)) {
-		return true, nil
+	// The event occupies the half-open interval [eventStart, eventEnd) and the
+	// time range is [start, end), end being unbounded if zero.
+	if !end.IsZero() && !end.After(eventStart) {
+		return false, nil
 	}
-	// Event ends in time range
-	if eventEnd.After(start) && (end.IsZero() || eventEnd.Before(end)) {
-		return true, nil
+	if eventEnd.After(eventStart) {
+		return start.Before(eventEnd), nil
 	}
-	// Event covers entire time range plus some
-	if eventStart.Before(start) && (!end.IsZero() && eventEnd.After(end)) {
-		return true, nil
-	}
-	return false, nil
+	// Zero-length event
+	return !start.After(eventStart), nil
 }
 
 func matchPropTimeRange(start, end time.Time, field *ical.Prop) (bool, error) {
@@ -184,7 +181,7 @@ func matchPropTimeRange(start, end time.Time, field *ical.Prop) (bool, error) {
 	if err != nil {
 		return false, err
 	}
-	if ptime.After(start) && (end.IsZero() || ptime.Before(end)) {
+	if !ptime.Before(start) && (end.IsZero() || ptime.Before(end)) {
 		return true, nil
 	}
 	return false, nil
